@@ -150,8 +150,8 @@ func init() {
 			for yi, pay := range g03Payloads {
 				for ti, tail := range g03Tails {
 					if pay.family == "trunc" {
-						// comment truncation: quoted prefix + comment tail only
-						if pre.quote == 0 || tail == "" || tail == ";" {
+						// comment truncation: a value (quoted or numeric) + comment tail only
+						if tail == "" || tail == ";" {
 							continue
 						}
 					}
